@@ -379,6 +379,30 @@ func c09OwnerCloseReleasesAll(c *Ctx) {
 			}
 		}
 	}
+	// a resource released through a helper of the session (conn.releaseDataConn()): the helper's own Close calls on fields
+	// of its receiver, decided at the helper call
+	for _, call := range Calls(cl) {
+		hf := call.Common().StaticCallee()
+		if hf == nil || hf == cl || !InRepo(hf) || hf.Blocks == nil || len(call.Common().Args) == 0 || call.Common().Args[0] != ssa.Value(cl.Params[0]) || len(hf.Params) == 0 {
+			continue
+		}
+		if _, isDefer := call.(*ssa.Defer); isDefer {
+			continue
+		}
+		for _, c2 := range Calls(hf) {
+			cc := c2.Common()
+			if !cc.IsInvoke() || cc.Method.Name() != "Close" {
+				continue
+			}
+			if ld, ok := isLoad(Unwrap(cc.Value)); ok {
+				if fa, ok := ld.X.(*ssa.FieldAddr); ok && fa.X == ssa.Value(hf.Params[0]) {
+					// the helper closes it whenever it is set: the close is reached on every path of the helper that did not
+					// find the field nil
+					rels = append(rels, rel{fieldNameOf(fa), call})
+				}
+			}
+		}
+	}
 	for _, r := range rels {
 		// the block that decides about this resource: the call's block, or the nil test of the same field that guards it
 		decide := r.call.Block()
@@ -454,6 +478,23 @@ func c09DataSocketReplaced(c *Ctx) {
 					}
 					if call.Block().Dominates(st.Block()) {
 						closedFirst = true
+					}
+				}
+				// … or through a helper of the session called before the store (conn.releaseDataConn())
+				for _, call := range Calls(fn) {
+					hf := call.Common().StaticCallee()
+					if hf == nil || !InRepo(hf) || hf.Blocks == nil || len(hf.Params) == 0 || len(call.Common().Args) == 0 || call.Common().Args[0] != fa.X || !call.Block().Dominates(st.Block()) || !before(call, st) {
+						continue
+					}
+					for _, c2 := range Calls(hf) {
+						cc := c2.Common()
+						if cc.IsInvoke() && cc.Method.Name() == "Close" {
+							if ld, ok := isLoad(Unwrap(cc.Value)); ok {
+								if fa2, ok := ld.X.(*ssa.FieldAddr); ok && fa2.X == ssa.Value(hf.Params[0]) && fieldNameOf(fa2) == field {
+									closedFirst = true
+								}
+							}
+						}
 					}
 				}
 				c.Check(closedFirst, rule, shortFn(fn)+" stores Conn."+field, p.InstrPos(st), "the socket already held is closed (if any) before it is replaced", "a new data socket is stored over the one the session already holds without closing that one: a passive socket that was requested and never used (the command sent twice) keeps its listener and its accept goroutine after the session, and for good")
